@@ -24,9 +24,9 @@ func init() {
 		Assumptions: []string{"distances within 1e-9 (relative) of the threshold or of each other count as ties and accept either answer"},
 		Cases: func(tier string) int {
 			if tier == "quick" {
-				return 128
+				return 256
 			}
-			return 1600
+			return 3200
 		},
 		Run:      runC08,
 		Required: []string{"placed.joined_nearest_of_several", "placed.joined_only_candidate", "placed.founded", "placed.in_epoch", "placed.direct", "method.linear", "method.fast"},
@@ -55,6 +55,7 @@ type specMonitor struct {
 	sc       *EvoScenario
 	stop     bool
 	lastSeen map[*genetics.Species]bool
+	lastPop  *genetics.Population
 }
 
 func (m *specMonitor) install(c *Ctx, opts *neat.Options) {
@@ -68,9 +69,20 @@ func (m *specMonitor) install(c *Ctx, opts *neat.Options) {
 }
 
 func (m *specMonitor) onPlaced(c *Ctx, p *genetics.Population, org *genetics.Organism) {
+	if p != m.lastPop {
+		// another population object (ReadPopulation of the written form of a spawned one): its species are numbered from one
+		m.lastPop = p
+		m.maxId = 0
+	}
 	c.Eval(1)
 	if m.inEpoch {
 		c.Count("placed.in_epoch", 1)
+	} else if m.sc != nil {
+		if m.sc.restoring {
+			c.Count("placed.in_constructor.ReadPopulation(mid-run restore)", 1)
+		} else {
+			c.Count("placed.in_constructor."+ctorNames[m.sc.Ctor], 1)
+		}
 	} else {
 		c.Count("placed.direct", 1)
 	}
@@ -189,16 +201,23 @@ func (m *specMonitor) Constructed(c *Ctx, sc *EvoScenario, pop *genetics.Populat
 			return
 		}
 	}
-	m.sc = sc
 	for _, s := range pop.Species {
 		if s.Id > m.maxId {
 			m.maxId = s.Id
 		}
 	}
+}
+
+// PreConstruct installs the hook before the population is constructed (or restored from its written form), so that the
+// speciation done by NewPopulation / NewPopulationRandom / ReadPopulation is monitored as well
+func (m *specMonitor) PreConstruct(c *Ctx, sc *EvoScenario) {
+	m.sc = sc
+	m.maxId = 0 // a new population numbers its species from one
+	m.inEpoch = false
 	m.install(c, sc.Opts)
 }
 
-func (m *specMonitor) BeforeEpoch(c *Ctx, sc *EvoScenario, gen int, pop *genetics.Population) {}
+func (m *specMonitor) BeforeEpoch(c *Ctx, sc *EvoScenario, gen int, pop *genetics.Population) { m.inEpoch = true }
 
 func (m *specMonitor) AfterEpoch(c *Ctx, sc *EvoScenario, gen int, pop *genetics.Population, err error) bool {
 	if m.skipped || err != nil || m.stop {
